@@ -29,16 +29,16 @@ type SpecEnv struct {
 	err   error
 }
 
-// preprocess turns "A ==> B" at parenthesis depth 0 into implies(A, B) (right associative).
+// preprocessSpec turns "A ==> B" into implies(A, B) (right associative, lowest precedence) at every
+// parenthesis level and inside call arguments.
 func preprocessSpec(e string) string {
+	// first rewrite the insides of every top-level bracket group
+	var sb strings.Builder
 	d := 0
-	for i := 0; i+2 < len(e); i++ {
-		switch e[i] {
-		case '(', '[', '{':
-			d++
-		case ')', ']', '}':
-			d--
-		case '"':
+	start := -1
+	for i := 0; i < len(e); i++ {
+		c := e[i]
+		if c == '"' {
 			j := i + 1
 			for j < len(e) && e[j] != '"' {
 				if e[j] == '\\' {
@@ -46,14 +46,76 @@ func preprocessSpec(e string) string {
 				}
 				j++
 			}
+			if d == 0 {
+				sb.WriteString(e[i:min(j+1, len(e))])
+			}
 			i = j
-		case '=':
-			if d == 0 && e[i:i+3] == "==>" {
-				return "implies(" + preprocessSpec(e[:i]) + ", " + preprocessSpec(e[i+3:]) + ")"
+			continue
+		}
+		switch c {
+		case '(', '[':
+			if d == 0 {
+				sb.WriteByte(c)
+				start = i + 1
+			}
+			d++
+		case ')', ']':
+			d--
+			if d == 0 {
+				inner := e[start:i]
+				// split on top-level commas
+				var parts []string
+				dd, last := 0, 0
+				for k := 0; k < len(inner); k++ {
+					switch inner[k] {
+					case '(', '[', '{':
+						dd++
+					case ')', ']', '}':
+						dd--
+					case ',':
+						if dd == 0 {
+							parts = append(parts, inner[last:k])
+							last = k + 1
+						}
+					}
+				}
+				parts = append(parts, inner[last:])
+				for k, p := range parts {
+					if k > 0 {
+						sb.WriteByte(',')
+					}
+					sb.WriteString(preprocessSpec(p))
+				}
+				sb.WriteByte(c)
+			}
+		default:
+			if d == 0 {
+				sb.WriteByte(c)
 			}
 		}
 	}
-	return e
+	t := sb.String()
+	// now split this level at the first top-level ==>
+	d = 0
+	for i := 0; i+2 < len(t); i++ {
+		switch t[i] {
+		case '(', '[', '{':
+			d++
+		case ')', ']', '}':
+			d--
+		case '"':
+			j := i + 1
+			for j < len(t) && t[j] != '"' {
+				j++
+			}
+			i = j
+		case '=':
+			if d == 0 && t[i:i+3] == "==>" {
+				return "implies(" + t[:i] + ", " + preprocessSpec(t[i+3:]) + ")"
+			}
+		}
+	}
+	return t
 }
 
 func (x *Exec) evalSpec(env *SpecEnv, expr string) (term string, err error) {
@@ -310,7 +372,7 @@ func (env *SpecEnv) selector(e *ast.SelectorExpr) *Val {
 			if ct == nil {
 				env.failf("no collection %s in keeper of module %s", name, v.Tag.Module)
 			}
-			return &Val{T: ct, Tag: &Tag{Kind: tagColl, Module: v.Tag.Module, Field: name, T: ct}}
+			return &Val{T: ct, Tag: &Tag{Kind: tagColl, Module: v.Tag.Module, Field: name, T: ct}, St: env.s}
 		case v.Tag.Kind == tagColl:
 			// field of an Item's value
 			return env.field(env.collValue(v), name)
@@ -395,7 +457,7 @@ func (env *SpecEnv) index(e *ast.IndexExpr) *Val {
 		if ci.Kind != "Map" {
 			env.failf("index on non-map collection %s", v.Tag.Field)
 		}
-		val := x.stGet(env.s, ci.Name+".val", fmt.Sprintf("(Array %s %s)", ci.KSort, ci.VSort))
+		val := x.stGet(env.stOf(v), ci.Name+".val", fmt.Sprintf("(Array %s %s)", ci.KSort, ci.VSort))
 		t := sx("select", val, env.keyTerm(ci, k))
 		return x.valOf(env.s, ci.V, t)
 	}
@@ -423,9 +485,23 @@ func (env *SpecEnv) keyTerm(ci *CollInfo, k *Val) string {
 }
 
 // collValue: the value stored in an Item or Sequence.
+func (env *SpecEnv) stOf(v *Val) *State {
+	if v.St != nil {
+		return v.St
+	}
+	return env.s
+}
+
 func (env *SpecEnv) collValue(v *Val) *Val {
 	x := env.x
 	ci := x.collInfo(v.Tag)
+	if v.St != nil && v.St != env.s {
+		e2 := *env
+		e2.s = v.St
+		nv := *v
+		nv.St = nil
+		return e2.collValue(&nv)
+	}
 	switch ci.Kind {
 	case "Item":
 		return x.valOf(env.s, ci.V, x.stGet(env.s, ci.Name+".val", ci.VSort))
@@ -493,10 +569,10 @@ func (env *SpecEnv) call(e *ast.CallExpr) *Val {
 				ci := x.collInfo(v.Tag)
 				switch ci.Kind {
 				case "Item":
-					return &Val{T: B, S: x.stGet(env.s, ci.Name+".has", "Bool")}
+					return &Val{T: B, S: x.stGet(env.stOf(v), ci.Name+".has", "Bool")}
 				case "Map", "KeySet":
 					k := env.eval(e.Args[1])
-					dom := x.stGet(env.s, ci.Name+".dom", fmt.Sprintf("(Array %s Bool)", ci.KSort))
+					dom := x.stGet(env.stOf(v), ci.Name+".dom", fmt.Sprintf("(Array %s Bool)", ci.KSort))
 					return &Val{T: B, S: sx("select", dom, env.keyTerm(ci, k))}
 				}
 			}
@@ -519,6 +595,29 @@ func (env *SpecEnv) call(e *ast.CallExpr) *Val {
 				cs = append(cs, eq(x.stGet(env.s, comp.name, comp.sort), x.stGet(env.old.s, comp.name, comp.sort)))
 			}
 			return &Val{T: B, S: and(cs...)}
+		case "mapval", "mapdom":
+			v := env.eval(e.Args[0])
+			if v.Tag == nil || v.Tag.Kind != tagColl {
+				env.failf("mapval(st.module.Map) expected")
+			}
+			ci := x.collInfo(v.Tag)
+			if id.Name == "mapdom" {
+				return &Val{T: nil, S: x.stGet(env.stOf(v), ci.Name+".dom", fmt.Sprintf("(Array %s Bool)", ci.KSort))}
+			}
+			return &Val{T: nil, S: x.stGet(env.stOf(v), ci.Name+".val", fmt.Sprintf("(Array %s %s)", ci.KSort, ci.VSort))}
+		case "chainid":
+			return &Val{T: types.Typ[types.String], S: x.ctxConst("ChainID", "Bytes")}
+		case "blocktime":
+			return &Val{T: mathInt, S: x.ctxConst("BlockTime", "Int")}
+		case "blockheight":
+			return &Val{T: mathInt, S: x.ctxConst("BlockHeight", "Int")}
+		case "arr", "off":
+			v := env.eval(e.Args[0])
+			srt := x.c.sortOf(nz(v.T))
+			if !strings.HasPrefix(srt, "Slc_") {
+				env.failf("%s() of a non-slice", id.Name)
+			}
+			return &Val{T: mathInt, S: sx(id.Name+"_"+srt, env.term(v))}
 		case "pair":
 			a, b := env.eval(e.Args[0]), env.eval(e.Args[1])
 			ps := x.pairSort(x.c.sortOf(nz(a.T)), x.c.sortOf(nz(b.T)))
@@ -606,6 +705,7 @@ func (x *Exec) evalPure(s *State, fn *ssa.Function, args []*Val) *Val {
 	}
 	var rs []res
 	base := len(s.pc)
+	baseDecl := len(s.decls)
 	s2 := s.clone()
 	nobl := len(x.obligs)
 	saveCon := x.con
@@ -617,12 +717,37 @@ func (x *Exec) evalPure(s *State, fn *ssa.Function, args []*Val) *Val {
 	} else {
 		rt = resT
 	}
+	var newDecls, newFacts []string
 	x.callFn(s2, &Frame{fn: x.fn, depth: 1}, fn, args, nil, rt, func(s3 *State, r *Val) {
-		c := and(s3.pc[base:]...)
+		var conds, facts []string
+		for i := base; i < len(s3.pc); i++ {
+			if s3.pcb[i] {
+				conds = append(conds, s3.pc[i])
+			} else {
+				facts = append(facts, s3.pc[i])
+			}
+		}
+		c := and(conds...)
 		rs = append(rs, res{c, r})
-		// keep declarations made on this path
-		s.decls = append(s.decls, s3.decls[len(s.decls):]...)
+		newDecls = append(newDecls, s3.decls[baseDecl:]...)
+		for _, f := range facts {
+			newFacts = append(newFacts, implies(c, f))
+		}
 	})
+	seenDecl := map[string]bool{}
+	for _, d := range newDecls {
+		if !seenDecl[d] {
+			seenDecl[d] = true
+			s.decls = append(s.decls, d)
+		}
+	}
+	seenFact := map[string]bool{}
+	for _, f := range newFacts {
+		if !seenFact[f] {
+			seenFact[f] = true
+			s.assume(f)
+		}
+	}
 	x.con = saveCon
 	x.obligs = x.obligs[:nobl]
 	if len(rs) == 0 {
